@@ -787,6 +787,7 @@ class map_async(Stream):
         self.args = args
         self.stop_on_exception = stop_on_exception
         self.work_queue = asyncio.Queue(maxsize=parallelism)
+        self._admission = asyncio.Lock()
 
         Stream.__init__(self, upstream, stream_name=stream_name, ensure_io_loop=True)
         self.work_task = None
@@ -853,10 +854,13 @@ class map_async(Stream):
 
     async def _insert_job(self, x, metadata):
         try:
-            await self._wait_for_work_slot()
-            coro = self.func(x, *self.args, **self.kwargs)
-            task = self._create_task(coro)
-            await self.work_queue.put((task, metadata))
+            # jobs are admitted in arrival order: without this a job that is
+            # still polling for a free slot can be overtaken by a later one
+            async with self._admission:
+                await self._wait_for_work_slot()
+                coro = self.func(x, *self.args, **self.kwargs)
+                task = self._create_task(coro)
+                await self.work_queue.put((task, metadata))
             self._retain_refs(metadata)
         except Exception as e:
             logger.exception(e)
